@@ -2,6 +2,7 @@ import Tbx.Proofs.FlowTheory
 import Tbx.Proofs.FlowAugment
 import Tbx.Proofs.FlowBuild
 import Tbx.Proofs.FlowDinicDfs
+import Tbx.Proofs.FlowDinicBfsSound
 import Tbx.Model.Flow
 import Tbx.Model.FlowDinic
 import Tbx.Model.FlowLegacy
@@ -142,7 +143,7 @@ example : capE (d1Edges ++ [⟨1,4,2⟩]) 1 4 = 5 := by decide
 
 /-- **residual_inv**: `r ≥ 0 ∧ r u v + r v u = c u v + c v u` makes `c − r` a capacity-bounded
     antisymmetric function, and the invariant is preserved by pushing δ along a simple path all of whose
-    residual capacities admit δ -/
+    residual capacities are at least δ -/
 theorem residual_inv {n : Nat} {c r : Fin n → Fin n → ℤ} (h : ResInv c r) :
     (∀ u v, resFlow c r u v = - resFlow c r v u) ∧ (∀ u v, resFlow c r u v ≤ c u v) ∧
     (∀ (δ : ℤ) (p : List (Fin n)), 0 ≤ δ → p.Nodup → (∀ ab ∈ consec p, δ ≤ r ab.1 ab.2) →
@@ -198,27 +199,23 @@ example : ((Solver.fromEdgeList d1Edges 0 4).runFF 100).isSome = true := by deci
 theorem merge_cap_unique_rev (es : List Edge) : Uniq (residualDinic es) ∧ RevClosed (residualDinic es) :=
   residualDinic_uniq_rev es
 
-/-- **dinic_bfs_exact_partial**: if `bfs()` returns `false` there is no residual path of positive
-    capacities from the source to the target (and `bfs` touches nothing but `level`/`bfs_count`).
-    Missing for the full `dinic_bfs_exact`: the converse (`true` ⇒ a path exists), which the correctness
-    of `run` does not need; stated as `dinic_bfs_exact_statement` -/
-theorem dinic_bfs_exact_partial (d : Dinic) (hwf : WF d.g) (huq : Uniq d.g) (hrc : RevClosed d.g)
-    (hN : d.g.numNodes + 2 < INV) (hsz : d.level.size = d.g.numNodes) (ht : d.target < d.g.numNodes)
-    (hst : d.source ≠ d.target) (d' : Dinic) (b : Bool) (h : d.bfs = some (d', b)) :
+/-- **dinic_bfs_exact**: on a well-formed residual graph with unique (source,target) pairs in which every
+    edge has its reverse, `bfs()` returns `true` iff there is a path of positive residual capacities from
+    the source to the target; it touches nothing but `level` / `bfs_count` -/
+theorem dinic_bfs_exact (d : Dinic) (hwf : WF d.g) (huq : Uniq d.g) (hrc : RevClosed d.g)
+    (hN : d.g.numNodes + 2 < INV) (hsz : d.level.size = d.g.numNodes) (hs : d.source < d.g.numNodes)
+    (ht : d.target < d.g.numNodes) (hst : d.source ≠ d.target) (d' : Dinic) (b : Bool)
+    (h : d.bfs = some (d', b)) :
+    (b = true ↔ ReachG d.g d.source d.target) ∧
     d'.g = d.g ∧ d'.parents = d.parents ∧ d'.source = d.source ∧ d'.target = d.target ∧
-    d'.level.size = d.g.numNodes ∧ (b = false → ¬ ReachG d.g d.source d.target) :=
-  bfs_spec d hwf huq hrc hN hsz ht hst d' b h
+    d'.level.size = d.g.numNodes := by
+  obtain ⟨a1, a2, a3, a4, a5, _⟩ := bfs_spec d hwf huq hrc hN hsz ht hst d' b h
+  exact ⟨bfs_exact d hwf huq hrc hN hsz hs ht hst d' b h, a1, a2, a3, a4, a5⟩
 
 /-- on the final state of the model's run on D1's witness `bfs()` answers `false` -/
 example : (((Dinic.fromEdgeList d1Edges 0 4).bind (·.run 100)).bind (·.bfs)).map (·.2) = some false := by
   decide +kernel
 example : (residualDinic d1Edges).numNodes = 5 ∧ (residualDinic d1Edges).tgt.size = 12 := by decide +kernel
-
-def dinic_bfs_exact_statement : Prop :=
-  ∀ (d : Dinic), WF d.g → Uniq d.g → RevClosed d.g → NonNeg d.g → d.g.numNodes + 2 < INV →
-    d.level.size = d.g.numNodes → d.source < d.g.numNodes → d.target < d.g.numNodes →
-    d.source ≠ d.target → ∀ (d' : Dinic) (b : Bool), d.bfs = some (d', b) →
-    (b = true ↔ ReachG d.g d.source d.target)
 
 /-- **dinic_aug_valid_partial**: whenever `dfs` reaches the target through an edge `e : u → t` from a
     node `u` with simple parent chain `lu` (which holds for every node on the stack: `DI.stk`), the path
